@@ -31,11 +31,13 @@ pub struct SCfg {
     pub pool: u8,
     /// also check the semantic hash (64-bit field) of every result against the defining sum
     pub hash: bool,
+    /// (k, m): with pool = 0 only the functions t with t % m == k are operands (m = 1: all)
+    pub slice: (usize, usize),
 }
 
 impl SCfg {
     pub fn json(&self) -> Value {
-        json!({"n": self.n, "vtree": self.vtree.show(), "compress": self.compress, "semantic": self.semantic, "table_cap": self.table_cap, "issue": self.issue, "ite_pool": self.ite_pool, "pair_stride": self.pair_stride, "cold_stride": self.cold_stride, "pool": self.pool, "hash": self.hash})
+        json!({"n": self.n, "vtree": self.vtree.show(), "compress": self.compress, "semantic": self.semantic, "table_cap": self.table_cap, "issue": self.issue, "ite_pool": self.ite_pool, "pair_stride": self.pair_stride, "cold_stride": self.cold_stride, "pool": self.pool, "hash": self.hash, "slice": [self.slice.0, self.slice.1]})
     }
     pub fn from_json(v: &Value) -> Option<SCfg> {
         Some(SCfg {
@@ -50,6 +52,7 @@ impl SCfg {
             cold_stride: v["cold_stride"].as_u64()? as usize,
             pool: v["pool"].as_u64().unwrap_or(0) as u8,
             hash: v["hash"].as_bool().unwrap_or(false),
+            slice: (v["slice"][0].as_u64().unwrap_or(0) as usize, v["slice"][1].as_u64().unwrap_or(1).max(1) as usize),
         })
     }
     fn prop_fn(&self) -> &'static str {
@@ -504,7 +507,7 @@ fn sweep<'a, B: SddBuilder<'a>>(b: &'a B, cfg: &SCfg, ctx: &Ctx) -> Report {
     let total = 1usize << (1usize << n);
     // the functions used as operands: all of them, or a rule-defined pool
     let mut dom: Vec<usize> = if cfg.pool == 0 {
-        (0..total).collect()
+        (0..total).filter(|t| t % cfg.slice.1.max(1) == cfg.slice.0).collect()
     } else {
         let mut v: Vec<usize> = vec![0, total - 1];
         // cubes (products of literals) and clauses (their negations)
@@ -541,7 +544,7 @@ fn sweep<'a, B: SddBuilder<'a>>(b: &'a B, cfg: &SCfg, ctx: &Ctx) -> Report {
         v.dedup();
         v
     };
-    s.f = FStore::new(total, SddPtr::PtrFalse, cfg.pool != 0);
+    s.f = FStore::new(total, SddPtr::PtrFalse, cfg.pool != 0 || cfg.slice.1 > 1);
     // materialise every operand (checked like any other result)
     for (k, &t) in dom.iter().enumerate() {
         let r = guarded(|| shannon(b, t as TT, 0, n, !cfg.semantic));
@@ -717,14 +720,14 @@ fn sweep<'a, B: SddBuilder<'a>>(b: &'a B, cfg: &SCfg, ctx: &Ctx) -> Report {
 pub fn run_cfg(cfg: &SCfg, ctx: &Ctx) -> Report {
     let t0 = std::time::Instant::now();
     let mut r = with_sdd_builder!(cfg, |b| sweep(&b, cfg, ctx));
-    r.add_extra(&format!("busy_ms_n{}_{}", cfg.n, if cfg.pool == 1 { "pool" } else if cfg.pair_stride > 0 { "all_strided" } else { "all" }), t0.elapsed().as_millis() as u64);
+    r.add_extra(&format!("busy_ms_n{}_{}", cfg.n, if cfg.pool == 1 { "pool" } else if cfg.slice.1 > 1 { "all_sliced" } else if cfg.pair_stride > 0 { "all_strided" } else { "all" }), t0.elapsed().as_millis() as u64);
     r
 }
 
 pub fn configs(ctx: &Ctx, semantic: bool, hash: bool) -> Vec<SCfg> {
     let mut out = Vec::new();
     let quick = ctx.tier == Tier::Quick;
-    let base = SCfg { n: 3, vtree: VT::Leaf(0), compress: true, semantic, table_cap: 2, issue: 0, ite_pool: 16, pair_stride: 0, cold_stride: 0, pool: 0, hash };
+    let base = SCfg { n: 3, vtree: VT::Leaf(0), compress: true, semantic, table_cap: 2, issue: 0, ite_pool: 16, pair_stride: 0, cold_stride: 0, pool: 0, hash, slice: (0, 1) };
     let modes: Vec<bool> = if semantic { vec![false] } else { vec![true, false] };
     // n = 3: every vtree, every function, every ordered pair
     for (i, vt) in all_vtrees(3).into_iter().enumerate() {
@@ -785,8 +788,16 @@ pub fn configs(ctx: &Ctx, semantic: bool, hash: bool) -> Vec<SCfg> {
     // n = 4, all 65 536 functions with a stride over the pairs
     let v4 = all_vtrees(4);
     if quick {
-        // (all 65 536 functions of 4 variables take about half a minute per vtree: thorough tier only)
-        let _ = v4;
+        // all 65 536 functions of 4 variables on 6 of the 120 vtrees, split into 16 residue
+        // classes of the truth table that run as separate configurations (a whole vtree takes
+        // about half a minute in one builder; whole-vtree builders are in the thorough tier)
+        if !hash {
+            for (i, vt) in v4.into_iter().enumerate().filter(|(i, _)| i % 20 == 3) {
+                for k in 0..16 {
+                    out.push(SCfg { n: 4, vtree: vt.clone(), compress: !semantic, issue: i, ite_pool: 6, pair_stride: 509, slice: ((k + ctx.seed as usize) % 16, 16), ..base.clone() });
+                }
+            }
+        }
     } else {
         for (i, vt) in v4.into_iter().enumerate() {
             for &compress in modes.iter() {
@@ -815,7 +826,7 @@ pub fn run_all_h(ctx: &Ctx, semantic: bool, hash: bool) -> Report {
         rep.merge(w);
     }
     rep.distinct_nontrivial = rep.transitions;
-    rep.bound("vtrees", json!({"n=3": "all 12, all functions, all ordered pairs", "n=2": "both", "n=4 operand pool (cubes, clauses, functions of <= 2 variables), all ordered pairs": "all 120 vtrees", "n=4 all functions": if ctx.tier == Tier::Quick {"thorough tier only"} else {"all 120, pair stride 257"}, "n=5 operand pool": if ctx.tier == Tier::Quick {"56 vtrees (14 shapes x 4 leaf orders), all unary operations, pair stride 31"} else {"14 shapes x identity/reversed leaf order + every 97th other vtree, all ordered pairs"}}));
+    rep.bound("vtrees", json!({"n=3": "all 12, all functions, all ordered pairs", "n=2": "both", "n=4 operand pool (cubes, clauses, functions of <= 2 variables), all ordered pairs": "all 120 vtrees", "n=4 all functions": if ctx.tier == Tier::Quick {"6 of 120 vtrees, all functions in 16 residue-class builders each, pair stride 509"} else {"all 120, pair stride 257"}, "n=5 operand pool": if ctx.tier == Tier::Quick {"56 vtrees (14 shapes x 4 leaf orders), all unary operations, pair stride 31"} else {"14 shapes x identity/reversed leaf order + every 97th other vtree, all ordered pairs"}}));
     rep.bound("compression", json!(if semantic {"n/a (semantic builder)"} else {"on and off"}));
     rep.sample(json!({"cfg": {"vtree": "((0 2) 1)", "compress": true, "table_cap": 2}, "ops": ["And(0x96, 0xe8)", "Compose(0xca, 1, 0x3c)", "Ite(0x1b, 0xd8, 0x27)"]}));
     for k in ["apply_case_same_vtree_node", "apply_case_descendant_a", "apply_case_descendant_b", "apply_case_independent"] {
@@ -951,7 +962,7 @@ pub fn run_wide(ctx: &Ctx, semantic: bool) -> Report {
     for m in maps.iter() {
         for (i, vt) in all_vtrees(3).into_iter().enumerate() {
             for &compress in (if semantic { vec![false] } else { vec![true, false] }).iter() {
-                items.push((SCfg { n: 3, vtree: relabel(&vt, m), compress, semantic, table_cap: 2, issue: i, ite_pool: 0, pair_stride: 0, cold_stride: 0, pool: 0, hash: false }, m.clone()));
+                items.push((SCfg { n: 3, vtree: relabel(&vt, m), compress, semantic, table_cap: 2, issue: i, ite_pool: 0, pair_stride: 0, cold_stride: 0, pool: 0, hash: false, slice: (0, 1) }, m.clone()));
             }
         }
     }
